@@ -12,16 +12,29 @@
    by the border delta; the active-block bookkeeping shown inert (score <= m + 63 < maxd + 64); and the
    wildcard padding of the last block together with the text padding shown neutral (a two-sided bound on the
    wildcard rows).
-   NOT theorems (kept as Definitions / tests): the 256-bit variant bpm_256 (lane-wise add256), and that the
-   recurrence [sed] equals the minimum over substrings of the Levenshtein distance (Sellers 1980).  The former
-   is decided on every run by model/implementation/specification correspondence. *)
-From KV Require Import Base Bpm BpmProofs BpmBits BpmBitsProofs.
+   C11_is_min_substring_edit_distance closes the specification side (Sellers 1980): the recurrence [sed] is
+   attained by the Levenshtein distance between the pattern and some substring of the text, and no substring
+   does better; edit distance is the least cost of an edit script ([script]) = the executable [lev].
+   NOT a theorem (kept as a Definition / test): the 256-bit variant bpm_256 (lane-wise add256), which is
+   decided on every run by model/implementation/specification correspondence. *)
+From KV Require Import Base Bpm BpmProofs BpmBits BpmBitsProofs SellersProofs.
 Local Open Scope Z_scope.
 
 Theorem C11_block : forall t p, (1 <= length p)%nat ->
   bpm_block_bits t p = sed t (firstn 1024 p).
 Proof. exact bpm_block_bits_is_sed. Qed.
 Print Assumptions C11_block.
+
+(* what the routine returns, said without any recurrence: the least edit distance between the (first 1024 symbols of
+   the) pattern and a substring of the text - attained, and not beaten *)
+Theorem C11_is_min_substring_edit_distance : forall t p, (1 <= length p)%nat ->
+  (exists pre u post, t = (pre ++ u ++ post)%list /\ lev u (firstn 1024 p) = bpm_block_bits t p) /\
+  (forall pre u post, t = (pre ++ u ++ post)%list -> bpm_block_bits t p <= lev u (firstn 1024 p)).
+Proof. intros t p H. rewrite (bpm_block_bits_is_sed t p H). exact (sed_is_min_substring_lev t (firstn 1024 p)). Qed.
+Print Assumptions C11_is_min_substring_edit_distance.
+
+Theorem C11_lev_is_least_script_cost : forall a b, script (lev a b) a b /\ forall c, script c a b -> lev a b <= c.
+Proof. intros a b. split; [apply lev_script|intros c; apply lev_min]. Qed.
 
 Theorem C11_bpm64 : forall t p, (1 <= length p <= 63)%nat ->
   bpm64_bits t p = sed t p.
